@@ -3,6 +3,7 @@ incoming metadata is accepted), the expected outcome of every step, and what a c
 import Tough.Driver.Util
 import Tough.Model.EditorSign
 import Tough.Model.Publish
+import Tough.Model.Editor
 open Lean Tough.Driver Tough.Sig Tough.EditorSign
 
 def strField (j : Json) (k : String) : String :=
@@ -230,10 +231,13 @@ def handle (j : Json) : Except String Json := do
       | _ => none
     | _ => []
   let applied := if createRes == "ok" && !flat then edits else []
-  -- (name, uses the alternative content)
-  let topState : List (Nat × Bool) := applied.foldl (fun st (e : Nat × Nat) =>
-    let rest := st.filter (fun x => x.1 != e.2)
-    if e.1 == 0 then rest ++ [(e.2, true)] else if e.1 == 1 then rest else rest ++ [(e.2, false)]) (top.map fun t => (t, false))
+  -- the editor model (`Tough/Model/Editor.lean`: existing targets, added targets, merged when built) run on the
+  -- edits; digest 1 marks the alternative content.  (name, uses the alternative content)
+  let e0 : Tough.Editor.Editor Nat := { existing := some (top.map fun t => (t, (⟨0, 0, 0, 0⟩ : Tough.Editor.Target))) }
+  let ops : List Tough.Editor.TOp := applied.map fun (e : Nat × Nat) =>
+    if e.1 == 0 then .add e.2 ⟨0, 1, 0, 0⟩ else if e.1 == 1 then .remove e.2 else .add e.2 ⟨0, 0, 0, 0⟩
+  let built := Tough.Editor.listed (Tough.Editor.applyOps e0 ops)
+  let topState : List (Nat × Bool) := (List.range nnames).filterMap fun t => (built.get t).map fun tg => (t, tg.digest == 1)
   let top := topState.map (·.1)
   let listed : List Nat := (List.range nnames).filter fun t =>
     top.contains t || (List.range roles.length).any fun ri => (roles[ri]?.map (·.targets.contains t)).getD false && listedBy 8 ri
